@@ -554,6 +554,20 @@ pub fn run_c02(ctx: &mut Ctx, known: &Known) {
             }
         }
     }
+    // quantified lists with ANCHORED members against strings in which a needle occurs again (and
+    // again) at positions where its anchor does not hold, before the occurrence where it does:
+    // members are counted, not occurrences — neither the successful nor the failed ones
+    {
+        let rdocs: Vec<Yaml> = ["foo/bar/bar", "foo/bar/bar/bar", "foofoo/bar", "bar/bar/bar", "barbar", "bar", "foo/bar/baz", "bar/foo/bar", "foo foo foo bar", "xfoo/bar",
+            "aba", "abab", "aaa", "baab", "aab", "abaa", "a", "bab", "aaab", "baaa"].iter().map(|v| map1("s", ys(v))).collect();
+        for key in ["all(s)", "of(s, 1)", "of(s, 2)", "of(s, 3)"] {
+            for members in [vec!["foo*", "*bar"], vec!["foo*", "*bar", "*nothere*"], vec!["*bar", "bar*", "bar"], vec!["a*", "*a", "*b*"], vec!["*a", "*b*"], vec!["a*", "*b"], vec!["aa*", "*ab", "*ba*"],
+                vec!["ifoo*", "i*BAR"], vec!["*bar", "foo*", "*/*", "*r/b*"]] {
+                let body = map1(key, Yaml::Sequence(members.iter().map(|m| ys(m)).collect()));
+                fixed.push((vec![("A".into(), body)], gen::Cond::Id("A".into()), rdocs.clone()));
+            }
+        }
+    }
     // lists of two plain patterns whose occurrences overlap in the value (every pair of shapes over
     // the needles a, b, ab, ba; every string over {a, b} up to length 3)
     {
